@@ -238,6 +238,17 @@ impl Shrinker {
     }
 
     pub fn shrink(&mut self, start: ReplayFile) -> ReplayFile {
+        if self.target.invariant == "I5" {
+            // every reproduction of "does not return" costs a full stall timeout: shorten it for
+            // the candidate runs (the final confirmation uses the normal timeout again)
+            crate::procs::CHILD_ENV.with(|e| e.borrow_mut().push(("A5SIM_STALL_SECS".into(), "5".into())));
+        }
+        let r = self.shrink_inner(start);
+        crate::procs::CHILD_ENV.with(|e| e.borrow_mut().clear());
+        r
+    }
+
+    fn shrink_inner(&mut self, start: ReplayFile) -> ReplayFile {
         let mut best = start;
         {
             // does the plain sequential schedule (each thread runs to its end) already show it?
